@@ -5,19 +5,30 @@ HARNESS = 'harness/c01.py'
 TRUSTED_BASE = [
     'Lean 4.33 kernel; axioms propext, Classical.choice, Quot.sound only (audited per theorem each run)',
     'hand-written model lean/PysphVerif/Model/Nnps.lean (front end: cell size, acceptance test, brute force; '
-    'Grid-family stencil; linked-list storage; neighbour cache; octree pruning test and executable TreeInv check) '
-    'and Model/NnpsStore.lean (flatten / valid-cell index, BoxSort std::map index, DictBoxSort dict, chained hash '
+    'Grid-family stencil; linked-list storage; neighbour cache; octree pruning test and executable TreeInv check), '
+    'Model/NnpsStore.lean (flatten / valid-cell index, BoxSort std::map index, DictBoxSort dict, chained hash '
     'table of spatial_hash.h, CellIndexing packed sorted keys + run detection, ExtendedSpatialHash sub-cells / mask / '
-    'per-box cut, Morton key), tied to the 12 compiled classes by differential execution on dyadic-grid inputs, '
-    'where double arithmetic is exact (harness/c01.py)',
+    'per-box cut, Morton key), Model/NnpsZOrder.lean (ZOrder / ExtendedZOrder: sorted (key, pid) lists, key_to_idx, '
+    'the cell ids shared by all arrays, both passes of _fill_nbr_boxes, lengths, per-cid hmax, _cell_hmax, the row '
+    'walk) and Model/NnpsStrat.lean (StratifiedHash levels / per-level cell size / per-level mask / per-level tables; '
+    'StratifiedSFC level keys, key_to_idx per level, _cell_hmax, the nbr_boxes segment table, the run walk), tied to '
+    'the 12 compiled classes by differential execution on dyadic-grid inputs, where double arithmetic is exact '
+    '(harness/c01.py); the z-order bookkeeping is additionally compared with the REAL objects through '
+    'get_keys / get_cids / get_pids / get_nbr_boxes / max_cid, the level functions of the stratified classes through '
+    'count_particles / get_number_of_particles, on every run',
     'exact ordered-field arithmetic stands in for IEEE doubles in the theorems (rounding only matters inside '
     'the 2^-40 band the property statement allows)',
     'the octree BUILDER is not modelled: the real tree of every sampled run is dumped through the Python API of '
     'pysph.base.octree (same builder, same particle array as OctreeNNPS._refresh) and the driver checks the '
     'hypotheses of tree_query_exact (TreeInv, every index exactly once) on it in exact rational arithmetic; '
     'OctreeNNPS.tree itself is not reachable from Python',
-    'the cid / nbr_boxes bookkeeping of the z-order classes and the Strat family are not proved: those classes are covered by '
-    'the correspondence with the exact oracle only',
+    'key_to_idx of the z-order / SFC classes is modelled as "first position of the key in the sorted key array" '
+    '(what the run-start loop writes for sorted keys); a C array indexed by key or cell id is a function, memory '
+    'safety of those arrays (key < max_key, cid < max_cid) is outside the model',
+    'StratifiedSFCNNPS._get_level (log2 / ceil on doubles) is read in exact arithmetic (ceil(log2 r) = least m with '
+    'r <= 2^m) in the model and in nbrs_exact_StratifiedSFCNNPS_code; that reading is compared with the per-level '
+    'particle counts of the compiled class by the tie; '
+    'the symmetric mode of StratifiedSFCNNPS is not modelled (the constructor cannot select it)',
     'std::sort / std::map / Python dict are taken at their specification (sorted permutation; ordered unique keys; '
     'finite map)',
     'cyarray update_min_max (min/max of an empty array are 0) is modelled, exercised by the tie',
@@ -42,7 +53,10 @@ LEVEL_TEXT = ("Lean 4 theorems over every point cloud, every linearly ordered fi
               "nbrs_exact_grid_cellSize, flatten_inj, stencil_enumerates_valid, cell_in_range, ll_traverse_eq_bucket, "
               "hash_get_eq_cell, pack_unpack, pack_inj, nbrs_exact_LinkedListNNPS / BoxSortNNPS / SpatialHashNNPS / "
               "DictBoxSortNNPS / CellIndexingNNPS (under the explicit no-overflow guard) / ExtendedSpatialHashNNPS, "
-              "subgrid_cover, morton_key_bits, key_inj, cache_get_eq_find, tree_query_exact, tree_query_exact_checked) about a hand-written "
+              "subgrid_cover, morton_key_bits, key_inj, cache_get_eq_find, tree_query_exact, tree_query_exact_checked, "
+              "nbrs_exact_ZOrderNNPS, nbrs_exact_ExtendedZOrderNNPS_asym / _sym, strat_cover, "
+              "nbrs_exact_StratifiedHashNNPS, sfc_cover, sfc_cell_nested, nbrs_exact_StratifiedSFCNNPS, nbrs_exact_StratifiedSFCNNPS_code (level hypothesis discharged by sfcLevelFixed_ok), "
+              "sfc_level_eps_sliver, sfcLevelFixed_ok) about a hand-written "
               "model of the neighbour search and of each class's storage; the model is tied to all 12 compiled NNPS "
               "classes on every run by exact differential execution (dyadic-grid inputs, ties included, cache on/off, "
               "after update histories), the real octree of every sampled run is dumped and the hypotheses of the tree "
@@ -57,11 +71,29 @@ LEVEL_NOTE = ("Proved (all clouds, sizes, knobs): LinkedList (head/next chains o
               "valid indices; the code's cell size covers every cut-off; any tree satisfying TreeInv is queried "
               "exactly, and TreeInv + exactly-once is CHECKED on the real tree of each sampled run (a failure is "
               "reported as a correspondence disagreement); linked-list chains and the neighbour cache return what was "
-              "stored for every insertion order / thread schedule. Still tie-only (correspondence with the exact "
-              "oracle): ZOrder / ExtendedZOrder (their Morton key is proved injective below 2^21 - key_inj - but the cid / nbr_boxes bookkeeping is not modelled), "
-              "StratifiedHash / StratifiedSFC, the approximate mode of ExtendedSpatialHash, the octree builders, "
+              "stored for every insertion order / thread schedule. "
+              "Also proved, for every LIST of arrays (empty ones included), every sorting function (std::sort at its "
+              "specification), every (src, dst) pair and destination particle: ZOrderNNPS (sorted keys, key_to_idx, the "
+              "cell-id numbering shared by all arrays is a bijection key <-> cid, every row of nbr_boxes[src] that belongs "
+              "to the cid of a particle of ANY array holds the boxes of that particle's cell whichever pass wrote it and "
+              "however often, lengths[cid] is the run length, the row walk visits each stencil particle once), "
+              "ExtendedZOrderNNPS asymmetric (sub-cells c/H, +-H mask) and symmetric (per-box cut with hmax_src[cid] and "
+              "the largest h of all arrays in the destination's cell), under the decidable guard that every cell "
+              "coordinate is >= 0 and < 2^21 - H and every key < max_key; StratifiedHashNNPS (every hash function, L, H "
+              ">= 1, EPS > 0, any h of the destination) ; StratifiedSFCNNPS asymmetric (level keys, first-writer-wins "
+              "segment table over own and foreign representatives, nested level grids) with the level function of the "
+              "code read in exact arithmetic: nbrs_exact_StratifiedSFCNNPS_code needs only 0 < h and rs*h <= cell_size, its "
+              "level hypothesis is discharged by sfcLevelFixed_ok. (Before fix: commit ac8e697 _get_level added an absolute "
+              "EPS to cell_size and broke that hypothesis inside a relative EPS/cell_size sliver: sfc_level_eps_sliver is "
+              "the kernel-checked counterexample on the pre-fix function, the same input is a pinned corpus scenario of "
+              "the harness, key C01:StratifiedSFCNNPS:level-eps-sliver, and nbrs_exact_StratifiedSFCNNPS_prefix_code keeps "
+              "the conditional statement.) Still tie-only (correspondence with the "
+              "exact oracle): the approximate mode of ExtendedSpatialHash, the octree builders, the symmetric mode of "
+              "StratifiedSFC (unreachable through the constructor), memory safety of the key / cid indexed C arrays, "
               "CellIndexing beyond the guard, the bounds computation that puts every particle into a valid cell "
               "(cell_in_range proves the arithmetic step, the padded bounds are a hypothesis). Trusted: Lean kernel, "
-              "the model (checked by the tie on ~1700 class runs and ~1000 real-tree checks per quick run), "
+              "the model (checked by the tie on ~1700 class runs, ~1000 real-tree checks and ~600 real z-order objects "
+              "(keys, cids, pids, ~900 nbr_boxes tables) and ~600 real stratified objects (per-level particle counts "
+              "against the model's level function) per quick run), "
               "exact-field arithmetic in place of doubles.")
 TIMEOUT = {'quick': 1500, 'thorough': 3 * 3600}
